@@ -264,7 +264,7 @@ class AsyncFIXConnection:
                         "Initiator is waiting for Logon() response, you must not send"
                         " any additional messages before acceptor responce."
                     )
-            elif (
+            if (
                 self._connection_state
                 in {
                     ConnectionState.LOGON_INITIAL_SENT,
